@@ -8,6 +8,16 @@ Definition is_suffix (s l : bytes) : bool := is_prefix (rev s) (rev l).
 (* the stream a reader obtains *)
 Definition stream_of (c : config) (l : list entry) : bytes := concat (family_in_order c l).
 
+(* C11 / C19: an archive next to its original - what a kill or a failure between "finish the archive" and "remove the
+   original" leaves until the next cleanup - holds nothing that the (complete) original does not hold: a reader of the
+   files ignores it (for the model: Flw/NumCleanupKillDir.v kill_view) *)
+Definition without_shadowed_archives (l : list entry) : list entry :=
+  filter (fun e : entry =>
+            match strip_suffix (dot :: gz_sfx) (fst (fst e)) with
+            | Some orig => negb (existsb (fun e' : entry => beq (fst (fst e')) orig) l)
+            | None => true
+            end) l.
+
 (* C06 / C07: nothing but an old end may be missing *)
 Definition oracle_tail (c : config) (logged : bytes) (l : list entry) : bool := is_suffix (stream_of c l) logged.
 Definition oracle_all (c : config) (logged : bytes) (l : list entry) : bool := beq (stream_of c l) logged.
